@@ -880,3 +880,53 @@ func (m *Model) decoratorMediatedCycle(role map[int]interface{}) bool {
 	}
 	return false
 }
+
+// viewCycleThrough: cand lies on a cycle in the view of some single scope S below (or equal to) its home:
+// the digraph over the registrations visible from S whose edges go from a constructor to the NEAREST
+// provider, as seen from S, of each of its single parameters (optional ones included) and to every feeder
+// visible from S of each of its non-soft group parameters. dig verifies, for a Provide, the graph of the
+// home scope and of every descendant, and each of those graphs holds at least these edges (it links a
+// constructor to ALL providers visible from the scope, not only the nearest): such a cycle must be
+// rejected ("closes a cycle among constructors as seen from any single scope").
+func (m *Model) viewCycleThrough(cand *Reg) bool {
+	for S := range m.parent {
+		if !m.sees(S, cand.H) {
+			continue
+		}
+		edges := func(r *Reg) []*Reg {
+			var out []*Reg
+			for _, p := range r.F.Params {
+				if p.K.Group != "" {
+					if !p.Soft {
+						out = append(out, m.feeders(S, p.K)...)
+					}
+					continue
+				}
+				if x := m.nearest(S, p.K); x != nil {
+					out = append(out, x)
+				}
+			}
+			return out
+		}
+		seen := map[*Reg]bool{}
+		var dfs func(r *Reg) bool
+		dfs = func(r *Reg) bool {
+			for _, n := range edges(r) {
+				if n == cand {
+					return true
+				}
+				if !seen[n] {
+					seen[n] = true
+					if dfs(n) {
+						return true
+					}
+				}
+			}
+			return false
+		}
+		if dfs(cand) {
+			return true
+		}
+	}
+	return false
+}
